@@ -108,7 +108,7 @@ func (sc *scen) gen() {
 	case 11:
 		off = -L / 2
 	}
-	if sc.layout != 10 && sc.layout != 13 && m.Intn(6, "sc") == 0 {
+	if sc.layout != 10 && sc.layout != 13 && m.Intn(6, "sc") == 5 {
 		sc.scale = math.Ldexp(1, m.Intn(41, "scale")-20)
 	}
 	items := make([]item, 0, n)
@@ -185,7 +185,7 @@ func (sc *scen) gen() {
 	}
 	// repeated IDs only among identical boxes, so that the distance of a
 	// visited id stays well defined.
-	if n > 1 && m.Intn(8, "repeat") == 0 {
+	if n > 1 && m.Intn(8, "repeat") == 7 {
 		sc.repeats = true
 		for i := 1; i < n; i++ {
 			if m.Intn(3, "rep") == 0 {
@@ -194,7 +194,7 @@ func (sc *scen) gen() {
 				items[i].id = items[j].id
 			}
 		}
-	} else if n > 0 && m.Intn(4, "ids") == 0 {
+	} else if n > 0 && m.Intn(4, "ids") == 3 {
 		// arbitrary (unique) record ids, including negative and large
 		base := m.Intn(1000, "idbase") - 500
 		mul := 1 + m.Intn(7, "idmul")
@@ -927,7 +927,7 @@ func (e *engine) Run(src *vs.Source, tier string, idx int64) *simkit.RunResult {
 	}
 	sim := &vs.Sim{Sched: src.Stream("sched"), MaxSwitchLog: 64}
 	sim.Plan = vs.NewSwarmPlan(sim.Sched, [5]int{2, 4, 2, 1, 0}, 7)
-	if m.Intn(4, "gc") == 0 {
+	if m.Intn(4, "gc") == 3 {
 		sim.GCOdds = 8
 		sim.GCMax = 3
 	}
@@ -954,11 +954,11 @@ func (e *engine) Run(src *vs.Source, tier string, idx int64) *simkit.RunResult {
 				if s.Intn(3, "abort?") > 0 {
 					x.abort = 1 + s.Intn(nAbortKinds-1, "abort")
 					x.k = s.Intn(ne+2, "k")
-					if s.Intn(4, "kedge") == 0 && ne > 0 {
+					if s.Intn(4, "kedge") == 3 && ne > 0 {
 						x.k = []int{0, ne - 1, ne / 2, minInt(3, ne-1)}[s.Intn(4, "kedgev")]
 					}
 				}
-				if depth < 2 && ne > 0 && s.Intn(5, "nest") == 0 {
+				if depth < 2 && ne > 0 && s.Intn(5, "nest") == 4 {
 					x.nestAt = s.Intn(minInt(ne, x.k+1), "nestat")
 					x.nested = mk(depth + 1)
 				}
